@@ -145,6 +145,19 @@ Theorem c05_f32_of_f64_normal : forall mf ef : N,
   /\ ((1150 < ef)%N \/ (q = (2 ^ 24)%N /\ ef = 1150%N) -> b = (255 * 2 ^ 23)%N).
 Proof. exact f32_of_f64_normal. Qed.
 
+(** f64 -> f32 with a result in the f32 subnormal range (1 <= ef <= 896): the produced bits ARE the
+    integer nearest (ties to even) to value / 2^-149, and never reach infinity *)
+Theorem c05_f32_of_f64_subnormal : forall mf ef : N,
+  (mf < 2 ^ 52)%N -> (1 <= ef)%N -> (ef <= 896)%N ->
+  encode 24 8 false (mf + 2 ^ 52) (Z.of_N ef - 1075) = round_even (mf + 2 ^ 52) (926 - ef)
+  /\ (round_even (mf + 2 ^ 52) (926 - ef) <= 2 ^ 23)%N.
+Proof. exact f32_of_f64_subnormal. Qed.
+
+Check c05_f32_of_f64_subnormal : forall mf ef : N,
+  (mf < 2 ^ 52)%N -> (1 <= ef)%N -> (ef <= 896)%N ->
+  encode 24 8 false (mf + 2 ^ 52) (Z.of_N ef - 1075) = round_even (mf + 2 ^ 52) (926 - ef)
+  /\ (round_even (mf + 2 ^ 52) (926 - ef) <= 2 ^ 23)%N.
+
 (** and [f32_of_f64] really calls it so on such inputs (positive sign; the sign bit is added as for
     integers) *)
 Theorem c05_f32_of_f64_unfold : forall b : N,
@@ -248,3 +261,4 @@ Print Assumptions c05_f32_of_int_rounded.
 Print Assumptions c05_float_of_negative.
 Print Assumptions c05_f32_of_f64_normal.
 Print Assumptions c05_f32_of_f64_unfold.
+Print Assumptions c05_f32_of_f64_subnormal.
